@@ -1355,7 +1355,7 @@ class Builder(object):
                     self.verifyName(frame, command, tokens, index)
 
                 elif connective == 'via':
-                    inode, index = self.parseIndirect(tokens, index, node=True)
+                    inode, index = self.parseIndirect(tokens, index, node=True, stops=('first', ))
 
                 else:
                     msg = "Error building %s. Bad connective got %s." %\
@@ -4214,10 +4214,12 @@ class Builder(object):
         return (path, index)
 
 
-    def parseIndirect(self, tokens, index, node=False):
+    def parseIndirect(self, tokens, index, node=False, stops=()):
         """
         Parse Indirect data address
         If node then allow trailing dot in path
+        stops is tuple of clause keywords of the calling verb that are not
+        reserved words but may follow the optional name of a relation clause
 
 
         parms:
@@ -4280,12 +4282,12 @@ class Builder(object):
             #check for optional relation clause
             #if 'of relation' clause then allows relative but no
             #implied relation clauses
-            relation, index = self.parseRelation(tokens, index)
+            relation, index = self.parseRelation(tokens, index, stops=stops)
             # dotpath starts with '.' no need to add
 
         elif reoRelPath.match(path): #valid relative path segment
             #get optional relation clause, default is root
-            relation, index = self.parseRelation(tokens, index)
+            relation, index = self.parseRelation(tokens, index, stops=stops)
 
             chunks = path.split('.')
             if relation:  # check for relation conflict
@@ -4331,9 +4333,10 @@ class Builder(object):
 
         return (path, index)
 
-    def parseRelation(self, tokens, index, framername=''):
+    def parseRelation(self, tokens, index, framername='', stops=()):
         """
         Parse optional relation clause of relative data address
+        stops is tuple of non reserved clause keywords that are not a relation name
 
         parms:
             tokens = list of tokens for command
@@ -4373,6 +4376,7 @@ class Builder(object):
 
         """
         relation = '' #default relation if none given
+        reserved = Reserved + list(stops)  # tokens that can not be a relation name
         if index < len(tokens): #are there more tokens
             connective = tokens[index]
             if connective == 'of': #of means relation given
@@ -4393,7 +4397,7 @@ class Builder(object):
                 name = '' #default name is empty
                 if index < len(tokens): #more tokens to check for optional name
                     name = tokens[index]
-                    if name not in Reserved: #name given
+                    if name not in reserved: #name given
                         index += 1 #eat token
 
                         if not REO_IdentPub.match(name): #check if valid name
@@ -4412,7 +4416,7 @@ class Builder(object):
                 name = '' #default name is empty
                 if index < len(tokens): #more tokens to check for optional name
                     name = tokens[index]
-                    if name not in Reserved: #name given
+                    if name not in reserved: #name given
                         index += 1 #eat token
 
                         if not REO_IdentPub.match(name): #check if valid name
@@ -4434,7 +4438,8 @@ class Builder(object):
 
                 framerRelation, index = self.parseRelation(tokens,
                                                            index,
-                                                           framername=framername)
+                                                           framername=framername,
+                                                           stops=stops)
 
                 # check if spurious, of frame or, of actor
                 if (framerRelation and
@@ -4455,7 +4460,7 @@ class Builder(object):
                 name = '' #default name is empty
                 if index < len(tokens): #more tokens to check for optional name
                     name = tokens[index]
-                    if name not in Reserved: #name given
+                    if name not in reserved: #name given
                         index += 1 #eat token
 
                         if not REO_IdentPub.match(name): #check if valid name
@@ -4471,7 +4476,7 @@ class Builder(object):
                 relation += '.' + name  #append name
 
                 # parse optional of frame and hence framer relation
-                frameRelation, index = self.parseRelation(tokens, index)
+                frameRelation, index = self.parseRelation(tokens, index, stops=stops)
 
                 # check if spurious, of framer or, of actor
                 if (frameRelation and
